@@ -9,6 +9,7 @@ import (
 	"path/filepath"
 	"sort"
 	"strings"
+	"sync"
 	"time"
 )
 
@@ -431,16 +432,31 @@ func cExtra(p *Property) string {
 
 // runFixtures re-runs the rules on in-memory variants (packages.Config.Overlay).
 func runFixtures(p *Property, repo string) []fixtureResult {
-	var out []fixtureResult
-	for _, fx := range p.Fixtures {
+	out := make([]fixtureResult, len(p.Fixtures))
+	sem := make(chan struct{}, 5) // at most 5 program variants alive at once
+	var wg sync.WaitGroup
+	for i, fx := range p.Fixtures {
+		wg.Add(1)
+		go func(i int, fx Fixture) {
+			defer wg.Done()
+			sem <- struct{}{}
+			defer func() { <-sem }()
+			out[i] = runFixture(p, repo, fx)
+		}(i, fx)
+	}
+	wg.Wait()
+	return out
+}
+
+func runFixture(p *Property, repo string, fx Fixture) fixtureResult {
+	{
 		fr := fixtureResult{Name: fx.Name, File: fx.File, Expect: fx.Expect}
 		abs := filepath.Join(repo, fx.File)
 		src, err := os.ReadFile(abs)
 		if err != nil || strings.Count(string(src), fx.Old) != 1 {
 			fr.Result = "STALE-FIXTURE"
 			fr.Detail = fmt.Sprintf("pattern occurs %d times", strings.Count(string(src), fx.Old))
-			out = append(out, fr)
-			continue
+			return fr
 		}
 		mut := strings.Replace(string(src), fx.Old, fx.New, 1)
 		c := &Ctx{Prop: p, Tier: "quick", Repo: repo, Overlay: map[string][]byte{abs: []byte(mut)}, quiet: true}
@@ -464,7 +480,6 @@ func runFixtures(p *Property, repo string) []fixtureResult {
 		default:
 			fr.Result = "MISSED"
 		}
-		out = append(out, fr)
+		return fr
 	}
-	return out
 }
